@@ -121,7 +121,13 @@ class CompositeMove(Generic[MoveType]):
         removed_indices : IntegerArray
             The indices of the atoms to remove.
         """
+        notified: list = []
+
         for move in self.moves:
+            if any(move is other for other in notified):
+                continue
+
+            notified.append(move)
             move.on_atoms_changed(added_indices, removed_indices)
 
     def on_cell_changed(self, new_cell: Cell) -> None:
